@@ -265,6 +265,38 @@ func runC01(ctx *Ctx) {
 	projects = append(projects, SingleFile(nil), SingleFile([]byte{0}), SingleFile([]byte("\xff\xfe")), SingleFile([]byte(strings.Repeat("(\n", 5000))),
 		SingleFile([]byte("JSIGHT 0.3\nURL /a\n"+strings.Repeat("(\n URL /a\n", 800))), SingleFile([]byte("JSIGHT 0.3\nTYPE @t\n"+strings.Repeat("[", 3000))))
 
+	// the signature of a run that is a violation ("" otherwise), and the reduction of a failing project under it
+	sigOf := func(wr WorkerResult) string {
+		switch {
+		case wr.Resp == nil:
+			return "fatal:" + firstWords(wr.Crashed, 3)
+		case wr.Resp.Panic != "":
+			repo, lib := topFrames(wr.Resp.Stack)
+			if lib != "" {
+				repo = lib
+			}
+			return "panic:" + faultClass(wr.Resp.Panic) + "@" + repo
+		case wr.Resp.Err != nil && strings.Contains(wr.Resp.Err.Msg, "runtime error"):
+			return "relayed:" + faultClass(wr.Resp.Err.Msg)
+		}
+		return ""
+	}
+	shrinker := func(p Project, in map[string]any, want string) func() map[string]any {
+		return func() map[string]any {
+			q, ok := shrinkProject(p, func(cands []Project) []bool {
+				rs := RunInWorkers(cands, 3*time.Second)
+				out := make([]bool, len(cands))
+				for i := range rs {
+					out[i] = sigOf(rs[i]) == want
+				}
+				return out
+			}, 400)
+			if !ok {
+				return nil
+			}
+			return shrunkInput(in, q)
+		}
+	}
 	results := RunInWorkers(projects, 3*time.Second)
 	for i, p := range projects {
 		wr := results[i]
@@ -280,7 +312,7 @@ func runC01(ctx *Ctx) {
 		case wr.Resp == nil:
 			ctx.Cov.Hit("process died / timed out")
 			ctx.Violate(Violation{Kind: "crash", Site: "process", What: "the process processing the project died or did not finish: " + trunc(wr.Crashed, 600), Input: in,
-				Signature: "fatal:" + firstWords(wr.Crashed, 3)})
+				Signature: "fatal:" + firstWords(wr.Crashed, 3), shrink: shrinker(p, in, sigOf(wr))})
 		case wr.Resp.Panic != "":
 			repo, lib := topFrames(wr.Resp.Stack)
 			ctx.Cov.Hit("panic")
@@ -289,7 +321,7 @@ func runC01(ctx *Ctx) {
 				site = lib
 			}
 			ctx.Violate(Violation{Kind: "crash", Site: site, What: fmt.Sprintf("panic: %s (in %s / %s)", wr.Resp.Panic, repo, lib), Input: in, Observed: trunc(wr.Resp.Stack, 1500),
-				Signature: "panic:" + faultClass(wr.Resp.Panic) + "@" + site})
+				Signature: "panic:" + faultClass(wr.Resp.Panic) + "@" + site, shrink: shrinker(p, in, sigOf(wr))})
 		case wr.Resp.Err != nil && strings.Contains(wr.Resp.Err.Msg, "runtime error"):
 			ctx.Cov.Hit("runtime fault relayed as a diagnostic")
 			_, lib, stack := TraceLibFault(p)
@@ -298,7 +330,7 @@ func runC01(ctx *Ctx) {
 				lib = "unknown (not swallowed by the library's own handler)"
 			}
 			ctx.Violate(Violation{Kind: "lib-runtime-fault", Site: lib, What: "a Go runtime fault is reported as if it were a diagnostic: " + wr.Resp.Err.Msg + " (raised in " + lib + ")", Input: in,
-				Observed: trunc(wr.Resp.LibFault, 1500), Signature: "relayed:" + faultClass(wr.Resp.Err.Msg) + "@" + lib})
+				Observed: trunc(wr.Resp.LibFault, 1500), Signature: "relayed:" + faultClass(wr.Resp.Err.Msg) + "@" + lib, shrink: shrinker(p, in, sigOf(wr))})
 		case wr.Resp.Err != nil:
 			ctx.Cov.Hit("rejected")
 		default:
